@@ -680,11 +680,21 @@ func run(c *lib.Ctx, e *eng.E, cs caseT) {
 		check(o, int(pos.int64()), fmt.Sprintf("LOCATE(%q,%q,%s)", sub.S, s.S, pos.I))
 		check(o1, 1, fmt.Sprintf("LOCATE(%q,%q)", sub.S, s.S))
 		if oi.K == "int" && o1.K == "int" && oi.I != o1.I {
+			// root cause from the input's shape: first exact vs first case-folded occurrence (in characters)
+			first := func(fold bool) int64 {
+				for q := 1; q <= len(rs)+1; q++ {
+					if q-1+len(rsub) <= len(rs) && matchAt(q, fold) {
+						return int64(q)
+					}
+				}
+				return 0
+			}
 			sig := "instr-vs-locate/differ"
-			if hasMultibyte(s) {
-				sig = "locate/multibyte-byte-position"
-			} else if oi.I == "0" {
+			switch {
+			case oi.big().Int64() == first(false) && o1.big().Int64() == first(true):
 				sig = "instr-vs-locate/case-sensitivity-differs"
+			case hasMultibyte(s):
+				sig = "locate/multibyte-byte-position"
 			}
 			fail(sig, fmt.Sprintf("INSTR(%q,%q) = %s but LOCATE(%q,%q) = %s", s.S, sub.S, oi.I, sub.S, s.S, o1.I))
 		}
@@ -1037,6 +1047,7 @@ func main() {
 			{Fam: "locate", In: []Arg{S("a"), S(""), I(5)}},
 			{Fam: "locate", In: []Arg{S("b"), S("éb"), I(1)}},
 			{Fam: "locate", In: []Arg{S("A"), S("abc"), I(1)}},
+			{Fam: "locate", In: []Arg{S("a"), S("A%a"), I(1)}},
 			{Fam: "insert", In: []Arg{S("héllo"), I(3), I(1), S("X")}},
 			{Fam: "insert", In: []Arg{S("hello"), I(2), I(9223372036854775807), S("X")}},
 			{Fam: "pad", In: []Arg{S("é"), I(1), S("x"), I(1)}},
